@@ -120,6 +120,9 @@ func stateDescriptionTextBegin(s *Scanner, c byte) *jerr.JApiError {
 }
 
 func stateDescriptionTextBracketsInner(s *Scanner, c byte) *jerr.JApiError {
+	if c == EOF {
+		return s.japiErrorUnexpectedChar("in the description", "closing parenthesis")
+	}
 	if IsNewLine(c) {
 		s.step = stateDescriptionTextBracketsInnerNewLine
 	}
@@ -134,6 +137,8 @@ func stateDescriptionTextBracketsInnerNewLine(s *Scanner, c byte) *jerr.JApiErro
 		s.found(TextEnd)
 		s.step = stateExpectKeyword
 		return nil
+	case EOF:
+		return s.japiErrorUnexpectedChar("in the description", "closing parenthesis")
 	default:
 		s.step = stateDescriptionTextBracketsInner
 		return nil
